@@ -1,5 +1,6 @@
 import Keto.Model.Handlers
 import Keto.Model.HandlerTable
+import Keto.Generated.Facts
 import Driver.Tok
 
 namespace Driver
@@ -43,9 +44,15 @@ def handleHCheck (toks : List String) : String :=
       let mirror := if mg == mp then mg else s!"get={mg}/post={mp}"
       let opn := if og == op then og else s!"get={og}/post={op}"
       s!"e{i}={mirror}|{opn}|{grpcStr (H.grpcCheck e)}"
-    let b := ";".intercalate ((H.batch es).map fun (a, er) => s!"{b01 a},{b01 er}")
     let dec := ",".intercalate (es.map fun e => b01 (H.decision e))
-    "\t".intercalate cols ++ s!"\tbatch_rest={b}\tbatch_grpc={b}\tdecisions={dec}"
+    -- the harness runs with the default limit.max_batch_check_size (from the configuration schema)
+    let max := Keto.Facts.defaultMaxBatchCheckSize
+    match H.batchLimited max es with
+    | some rs =>
+      let b := ";".intercalate (rs.map fun (a, er) => s!"{b01 a},{b01 er}")
+      "\t".intercalate cols ++ s!"\tbatch_rest={b}\tbatch_grpc={b}\tdecisions={dec}\tmaxbatch={max}"
+    | none =>
+      "\t".intercalate cols ++ s!"\tbatch_rest=status400\tbatch_grpc=err:InvalidArgument\tdecisions={dec}\tmaxbatch={max}"
 
 end Driver
 
